@@ -3,7 +3,7 @@ SPECIFICATION Spec
 CONSTANTS
   Threads = {"t1", "t2"}
   Fixed = {"queue-distributor-len", "set-producer-lock", "set-equal-other", "collector-resolve-copy"}
-  JudgeHandedOut = FALSE
+  JudgeHandedOut = TRUE
   OnlyComps = {}
   EmitObligations = TRUE
 INVARIANTS TypeOK Lockset HelperGuard NoConcurrentConflict Balanced
